@@ -10,7 +10,7 @@ package lisp
 // outing1 (debugger bookkeeping) is assigned only by EVAL under Stepper != nil and by do under
 // outing1; with no Stepper installed it stays false. No call or loop is taken to change it, and
 // EVAL and do are each checked to leave it as they found it (post "frozen outing1 restored").
-//@ frozen outing1
+//@ frozen outing1 @C01,C03,C08,C12
 
 //@ spec abstract evalAstOut(x MalType, env EnvType, w World) Outcome
 //@ func EVAL(ctx, ast, env) (res, e)
@@ -19,8 +19,8 @@ package lisp
 //@   panics never
 //@   changes world
 //@   ensures out(res, e, world()) == evalOut(ast, env, old(world())) @assume
-//@   loop 1 tailrec evalStep(ast, env, world(), OUT) @C01,C03,C08,C12
-//@   loop 2 invariant i % 2 == 0 && 0 <= i && i <= len(arr1) && world() == letW(arr1, i, let_env, atentry(world())) && letOK(arr1, i, let_env, atentry(world())) @C01,C03,C08,C12
+//@   loop 1 tailrec evalStep(ast, env, world(), OUT) @C01,C03,C08,C12,C18
+//@   loop 2 invariant i % 2 == 0 && 0 <= i && i <= len(arr1) && world() == letW(arr1, i, let_env, atentry(world())) && letOK(arr1, i, let_env, atentry(world())) @C01,C03,C08,C12,C18
 //@   loop 1 readsat "defer func() { _, _ = do(ctx, finallyDo, 0, 0, env) }()"
 //@   loop 1 readsat "let_env := NewSubordinateEnv(env)"
 //@   loop 1 continue evalOut(ast, env, world())
@@ -33,14 +33,14 @@ package lisp
 //@   panics never
 //@   changes world
 //@   ensures implies(e == nil && is(ast, List), is(res, List) && len(res.(List).Val) == len(ast.(List).Val))
-//@   ensures implies(is(ast, Symbol), ite(lookupOK(old(world()), envp(env), ast.(Symbol).Val), e == nil && res == lookupV(old(world()), envp(env), ast.(Symbol).Val), res == nil && e != nil) && world() == old(world())) @C01
-//@   ensures implies(is(ast, List), seqResult(lst(ast), env, old(world()), ite(e == nil, res.(List).Val, lst(ast)), e, world()) && implies(e == nil, is(res, List)) && implies(e != nil, res == nil)) @C01
-//@   ensures implies(is(ast, Vector), seqResult(ast.(Vector).Val, env, old(world()), ite(e == nil, res.(Vector).Val, ast.(Vector).Val), e, world()) && implies(e == nil, is(res, Vector)) && implies(e != nil, res == nil)) @C01
-//@   ensures implies(!is(ast, Symbol) && !is(ast, List) && !is(ast, Vector) && !is(ast, HashMap), res == ast && e == nil && world() == old(world())) @C01
+//@   ensures implies(is(ast, Symbol), ite(lookupOK(old(world()), envp(env), ast.(Symbol).Val), e == nil && res == lookupV(old(world()), envp(env), ast.(Symbol).Val), res == nil && e != nil) && world() == old(world())) @C01,C03,C08,C12,C18
+//@   ensures implies(is(ast, List), seqResult(lst(ast), env, old(world()), ite(e == nil, res.(List).Val, lst(ast)), e, world()) && implies(e == nil, is(res, List)) && implies(e != nil, res == nil)) @C01,C03,C08,C12,C18
+//@   ensures implies(is(ast, Vector), seqResult(ast.(Vector).Val, env, old(world()), ite(e == nil, res.(Vector).Val, ast.(Vector).Val), e, world()) && implies(e == nil, is(res, Vector)) && implies(e != nil, res == nil)) @C01,C03,C08,C12,C18
+//@   ensures implies(!is(ast, Symbol) && !is(ast, List) && !is(ast, Vector) && !is(ast, HashMap), res == ast && e == nil && world() == old(world())) @C01,C03,C08,C12,C18
 //@   ensures out(res, e, world()) == evalAstOut(ast, env, old(world())) @assume
 //@   loop 1 invariant len(lst) == rangeindex + 1
-//@   loop 1 invariant world() == seqW(lst(ast), rangeindex + 1, env, old(world())) && seqOK(lst(ast), rangeindex + 1, env, old(world())) && forall(j, 0, rangeindex + 1, lst[j] == outV(seqO(lst(ast), j, env, old(world())))) @C01
-//@   loop 2 invariant len(lst) == rangeindex + 1 && world() == seqW(ast.(Vector).Val, rangeindex + 1, env, old(world())) && seqOK(ast.(Vector).Val, rangeindex + 1, env, old(world())) && forall(j, 0, rangeindex + 1, lst[j] == outV(seqO(ast.(Vector).Val, j, env, old(world())))) @C01
+//@   loop 1 invariant world() == seqW(lst(ast), rangeindex + 1, env, old(world())) && seqOK(lst(ast), rangeindex + 1, env, old(world())) && forall(j, 0, rangeindex + 1, lst[j] == outV(seqO(lst(ast), j, env, old(world())))) @C01,C03,C08,C12,C18
+//@   loop 2 invariant len(lst) == rangeindex + 1 && world() == seqW(ast.(Vector).Val, rangeindex + 1, env, old(world())) && seqOK(ast.(Vector).Val, rangeindex + 1, env, old(world())) && forall(j, 0, rangeindex + 1, lst[j] == outV(seqO(ast.(Vector).Val, j, env, old(world())))) @C01,C03,C08,C12,C18
 
 // do: evaluate the forms lst[from : len+to] in order; value of the last one (to == 0) or the
 // last form itself, unevaluated, for the caller to continue with (to == -1); nil when there are none
@@ -55,7 +55,7 @@ package lisp
 //@   requires ast == nil || from <= len(ast.(List).Val)
 //@   panics never
 //@   changes world
-//@   ensures doStep(ast, from, to, env, old(world()), out(res, e, world())) @C01
+//@   ensures doStep(ast, from, to, env, old(world()), out(res, e, world())) @C01,C03,C08,C12,C18
 //@   ensures out(res, e, world()) == doOut(ast, from, to, env, old(world())) @assume
 
 // macro expansion: while the form is a call whose head symbol is bound to a macro, apply the
@@ -69,7 +69,7 @@ package lisp
 //@   panics never
 //@   changes world
 //@   hint e == nil && res == ast
-//@   loop 1 tailrec mexpStep(ast, env, world(), OUT) @C01
+//@   loop 1 tailrec mexpStep(ast, env, world(), OUT) @C01,C03,C08,C12,C18
 //@   loop 1 continue mexpOut(ast, env, world())
 //@   loop 1 result out(res, e, world())
 //@   ensures out(res, e, world()) == mexpOut(ast, env, old(world())) @assume
@@ -80,7 +80,7 @@ package lisp
 //@   assigns nothing
 //@   ensures implies(r, is(ast, List) && len(ast.(List).Val) > 0 && is(ast.(List).Val[0], Symbol))
 //@   ensures implies(r, lookupOK(world(), env.(*Env), ast.(List).Val[0].(Symbol).Val) && is(lookupV(world(), env.(*Env), ast.(List).Val[0].(Symbol).Val), MalFunc))
-//@   ensures r == isMacroCall(ast, env, world()) @C01
+//@   ensures r == isMacroCall(ast, env, world()) @C01,C03,C08,C12,C18
 
 //@ func quasiquote(ast) (r)
 //@   panics never
@@ -149,7 +149,7 @@ package lisp
 //@ spec fnStep(y MalType, env EnvType, w World, o Outcome) bool = ite(len(lst(y)) < 2, failure(o, w), outE(o) == nil && outW(o) == w && is(outV(o), MalFunc) && outV(o).(MalFunc).Env == env && outV(o).(MalFunc).Params == arg(y, 1) && !outV(o).(MalFunc).IsMacro && is(outV(o).(MalFunc).Exp, List) && len(lst(outV(o).(MalFunc).Exp)) == len(lst(y)) - 1 && lst(outV(o).(MalFunc).Exp)[0] == val(Symbol{Val: "do"}) && forall(j, 2, len(lst(y)), lst(outV(o).(MalFunc).Exp)[j-1] == lst(y)[j]))
 //@ spec setMacro(f MalFunc) MalType = val(MalFunc{Eval: f.Eval, Exp: f.Exp, Env: f.Env, Params: f.Params, IsMacro: true, GenEnv: f.GenEnv, Meta: f.Meta, Cursor: f.Cursor})
 //@ spec defmacroStep(y MalType, env EnvType, w World, o Outcome) bool = ite(outE(evalOut(arg(y, 2), env, w)) != nil, o == propagate(evalOut(arg(y, 2), env, w)), ite(is(outV(evalOut(arg(y, 2), env, w)), MalFunc) && is(arg(y, 1), Symbol), o == out(setMacro(outV(evalOut(arg(y, 2), env, w)).(MalFunc)), nil, defW(outW(evalOut(arg(y, 2), env, w)), envp(env), arg(y, 1).(Symbol).Val, setMacro(outV(evalOut(arg(y, 2), env, w)).(MalFunc)))), failure(o, outW(evalOut(arg(y, 2), env, w)))))
-//@ spec callStep(y MalType, env EnvType, w World, o Outcome) bool = ite(outE(evalAstOut(y, env, w)) != nil, o == propagate(evalAstOut(y, env, w)), ite(is(lst(outV(evalAstOut(y, env, w)))[0], MalFunc), ite(bindE(outW(evalAstOut(y, env, w)), lst(outV(evalAstOut(y, env, w)))[0].(MalFunc).Env, lst(outV(evalAstOut(y, env, w)))[0].(MalFunc).Params, val(List{Val: lst(outV(evalAstOut(y, env, w)))[1:]})) != nil, failure(o, bindW(outW(evalAstOut(y, env, w)), lst(outV(evalAstOut(y, env, w)))[0].(MalFunc).Env, lst(outV(evalAstOut(y, env, w)))[0].(MalFunc).Params, val(List{Val: lst(outV(evalAstOut(y, env, w)))[1:]}))), o == evalOut(lst(outV(evalAstOut(y, env, w)))[0].(MalFunc).Exp, bindR(outW(evalAstOut(y, env, w)), lst(outV(evalAstOut(y, env, w)))[0].(MalFunc).Env, lst(outV(evalAstOut(y, env, w)))[0].(MalFunc).Params, val(List{Val: lst(outV(evalAstOut(y, env, w)))[1:]})), bindW(outW(evalAstOut(y, env, w)), lst(outV(evalAstOut(y, env, w)))[0].(MalFunc).Env, lst(outV(evalAstOut(y, env, w)))[0].(MalFunc).Params, val(List{Val: lst(outV(evalAstOut(y, env, w)))[1:]})))), ite(is(lst(outV(evalAstOut(y, env, w)))[0], Func), ite(outE(fnOut(lst(outV(evalAstOut(y, env, w)))[0].(Func).Fn, lst(outV(evalAstOut(y, env, w)))[1:], outW(evalAstOut(y, env, w)))) != nil, failure(o, outW(fnOut(lst(outV(evalAstOut(y, env, w)))[0].(Func).Fn, lst(outV(evalAstOut(y, env, w)))[1:], outW(evalAstOut(y, env, w))))), o == out(outV(fnOut(lst(outV(evalAstOut(y, env, w)))[0].(Func).Fn, lst(outV(evalAstOut(y, env, w)))[1:], outW(evalAstOut(y, env, w)))), nil, outW(fnOut(lst(outV(evalAstOut(y, env, w)))[0].(Func).Fn, lst(outV(evalAstOut(y, env, w)))[1:], outW(evalAstOut(y, env, w)))))), failure(o, outW(evalAstOut(y, env, w))))))
+//@ spec callStep(y MalType, env EnvType, w World, o Outcome) bool = ite(outE(evalAstOut(y, env, w)) != nil, o == propagate(evalAstOut(y, env, w)), ite(is(lst(outV(evalAstOut(y, env, w)))[0], MalFunc), ite(bindE(outW(evalAstOut(y, env, w)), lst(outV(evalAstOut(y, env, w)))[0].(MalFunc).Env, lst(outV(evalAstOut(y, env, w)))[0].(MalFunc).Params, val(List{Val: lst(outV(evalAstOut(y, env, w)))[1:]})) != nil, failure(o, bindW(outW(evalAstOut(y, env, w)), lst(outV(evalAstOut(y, env, w)))[0].(MalFunc).Env, lst(outV(evalAstOut(y, env, w)))[0].(MalFunc).Params, val(List{Val: lst(outV(evalAstOut(y, env, w)))[1:]}))), o == evalOut(lst(outV(evalAstOut(y, env, w)))[0].(MalFunc).Exp, bindR(outW(evalAstOut(y, env, w)), lst(outV(evalAstOut(y, env, w)))[0].(MalFunc).Env, lst(outV(evalAstOut(y, env, w)))[0].(MalFunc).Params, val(List{Val: lst(outV(evalAstOut(y, env, w)))[1:]})), bindW(outW(evalAstOut(y, env, w)), lst(outV(evalAstOut(y, env, w)))[0].(MalFunc).Env, lst(outV(evalAstOut(y, env, w)))[0].(MalFunc).Params, val(List{Val: lst(outV(evalAstOut(y, env, w)))[1:]})))), ite(is(lst(outV(evalAstOut(y, env, w)))[0], Func), ite(outE(fnOut(lst(outV(evalAstOut(y, env, w)))[0].(Func).Fn, lst(outV(evalAstOut(y, env, w)))[1:], outW(evalAstOut(y, env, w)))) != nil, failure(o, outW(fnOut(lst(outV(evalAstOut(y, env, w)))[0].(Func).Fn, lst(outV(evalAstOut(y, env, w)))[1:], outW(evalAstOut(y, env, w))))) && thrownOf(outE(o)) == thrownOf(outE(fnOut(lst(outV(evalAstOut(y, env, w)))[0].(Func).Fn, lst(outV(evalAstOut(y, env, w)))[1:], outW(evalAstOut(y, env, w))))), o == out(outV(fnOut(lst(outV(evalAstOut(y, env, w)))[0].(Func).Fn, lst(outV(evalAstOut(y, env, w)))[1:], outW(evalAstOut(y, env, w)))), nil, outW(fnOut(lst(outV(evalAstOut(y, env, w)))[0].(Func).Fn, lst(outV(evalAstOut(y, env, w)))[1:], outW(evalAstOut(y, env, w)))))), failure(o, outW(evalAstOut(y, env, w))))))
 //@ spec formStep(y MalType, env EnvType, w World, o Outcome) bool = ite(!is(y, List), o == evalAstOut(y, env, w), ite(len(lst(y)) == 0, o == out(y, nil, w), ite(head(y) == "def", defStep(y, env, w, o), ite(head(y) == "let", letStep(y, env, w, o), ite(head(y) == "quote", o == out(arg(y, 1), nil, w), ite(head(y) == "quasiquoteexpand", o == out(qqV(arg(y, 1)), nil, w), ite(head(y) == "quasiquote", o == evalOut(qqV(arg(y, 1)), env, w), ite(head(y) == "defmacro", defmacroStep(y, env, w, o), ite(head(y) == "macroexpand", o == mexpOut(arg(y, 1), env, w), ite(head(y) == "try", tryStep(y, env, w, o), ite(head(y) == "do", bodyOf(y, 1, env, w, o), ite(head(y) == "if", ifStep(y, env, w, o), ite(head(y) == "fn", fnStep(y, env, w, o), callStep(y, env, w, o))))))))))))))
 //@ spec evalStep(x MalType, env EnvType, w World, o Outcome) bool = ite(!is(x, List), o == evalAstOut(x, env, w), ite(outE(mexpOut(x, env, w)) != nil, o == propagate(mexpOut(x, env, w)), formStep(outV(mexpOut(x, env, w)), env, outW(mexpOut(x, env, w)), o)))
 
@@ -166,8 +166,9 @@ package lisp
 // are written down but not part of the checked relation: z3/cvc5 need 10-60 s per case for them in
 // this encoding, too close to the time-outs to be claimed. What is checked for let: the shape
 // errors, that a new scope is opened first, and (loop 2 invariant) that the bindings are evaluated
-// in order, each in the new scope with the earlier ones visible. For try: the empty form only.
-//@ spec letStep(y MalType, env EnvType, w World, o Outcome) bool = ite(!(is(arg(y, 1), List) || is(arg(y, 1), Vector)) || len(seqOf(arg(y, 1))) % 2 != 0, failure(o, scopeW(w, envp(env))), true)
+// in order, each in the new scope with the earlier ones visible; a let that succeeds continues the
+// loop (tail position) rather than returning. For try: the empty form only.
+//@ spec letStep(y MalType, env EnvType, w World, o Outcome) bool = ite(!(is(arg(y, 1), List) || is(arg(y, 1), Vector)) || len(seqOf(arg(y, 1))) % 2 != 0, failure(o, scopeW(w, envp(env))), ite(outE(o) != nil, true, tail(true)))
 //@ spec tryStep(y MalType, env EnvType, w World, o Outcome) bool = ite(len(lst(y)) == 1, o == out(nil, nil, w), true)
 //@ spec firstName(x MalType) string = ite(x != nil && is(x, List) && len(lst(x)) > 0 && is(lst(x)[0], Symbol), lst(x)[0].(Symbol).Val, "")
 //@ spec caughtV(e error) MalType = ite(is(e, `interface{ ErrorValue() MalType }`), errorValueOf(e), val(errorString(e)))
